@@ -515,9 +515,14 @@ pub fn op_yaml(p: &[&str], out: &mut Vec<String>) {
     let base = files[0].0.clone();
     let mut parser = RVParser::new(MemReader { files, read: Vec::new() });
     let (nodes, _errs) = parser.parse_from_file(&base, false);
+    let r = parser.reader.clone();
     match Manager::gen_full_cfg(nodes) {
         Err(_) => out.push("YAML CFGERR".to_string()),
         Ok(cfg) => {
+            // the canonical trace of the very graph that is dumped (a second run of the
+            // pipeline may resolve hash-order dependent choices differently)
+            dump_cfg(&r, &cfg, "CFG", out);
+            dump_facts(&cfg, "FACT", out);
             let w = CfgWrapper::from(&cfg);
             match serde_yaml::to_string(&w) {
                 Err(e) => out.push(format!("YAML SERERR {}", hex(&e.to_string()))),
@@ -559,6 +564,14 @@ fn reload_equals_graph(yaml: &str, cfg: &Cfg) -> String {
         let mut fe: Vec<usize> = n.functions().iter().map(|f| idx_of(cfg, &f.entry())).collect();
         let mut fx: Vec<usize> = n.functions().iter().map(|f| idx_of(cfg, &f.exit())).collect();
         let (mut we, mut wx) = (w.func_entry.clone(), w.func_exit.clone());
+        // the two lists are parallel: position k of both describes one function
+        let mut fpairs: Vec<(usize, usize)> =
+            n.functions().iter().map(|f| (idx_of(cfg, &f.entry()), idx_of(cfg, &f.exit()))).collect();
+        let mut wpairs: Vec<(usize, usize)> =
+            w.func_entry.iter().copied().zip(w.func_exit.iter().copied()).collect();
+        fpairs.sort_unstable();
+        wpairs.sort_unstable();
+        let pairs_same = fpairs == wpairs && w.func_entry.len() == w.func_exit.len();
         fe.sort_unstable();
         fx.sort_unstable();
         we.sort_unstable();
@@ -572,6 +585,7 @@ fn reload_equals_graph(yaml: &str, cfg: &Cfg) -> String {
             ("prevs", w.prevs == prevs),
             ("func_entry", we == fe),
             ("func_exit", wx == fx),
+            ("func_entry_exit_pairs", pairs_same),
             ("reg_values_in", w.reg_values_in == n.reg_values_in()),
             ("reg_values_out", w.reg_values_out == n.reg_values_out()),
             ("memory_values_in", w.memory_values_in == n.memory_values_in()),
